@@ -408,7 +408,7 @@ func checkReaders(c *Ctx, codec int, x []byte, sch *ReadSched) *Violation {
 	// file forms
 	d := NewSimDisk(c)
 	c.disk = d
-	d.Files["sim/damaged"] = x
+	d.Set("sim/damaged", x)
 	d.ReadSched["sim/damaged"] = &ReadSched{ErrAt: sch.ErrAt, CutAt: -1, Chunk: sch.Chunk, ChunkSeed: sch.ChunkSeed, EOFWithData: sch.EOFWithData, ZeroReads: sch.ZeroReads}
 	for raw := 0; raw < 2; raw++ {
 		if v := safely(c, tag+"/file", func() {
